@@ -71,6 +71,17 @@ func Payload(seed uint64, n int, kind int) []byte {
 	return out
 }
 
+// drawRem draws how far past a block boundary a payload ends.
+func drawRem(src *choice.Source, lo, hi int) int {
+	switch src.Weighted([]int{4, 3, 3}) {
+	case 0:
+		return src.Range(lo, hi)
+	case 1:
+		return (4 << uint(src.Intn(9))) - 4 // 0, 4, 12, 28, ..., 1020
+	}
+	return src.Range(-70, 1100)
+}
+
 // drawLen draws a payload length; 0 on the tape is the smallest class.
 func drawLen(src *choice.Source, ct pb.CompressionType, big bool) (n int, class int) {
 	w := []int{40, 6, 6, 26, 8, 5, 3, 6}
@@ -87,15 +98,7 @@ func drawLen(src *choice.Source, ct pb.CompressionType, big bool) (n int, class 
 	// past a block boundary: a few bytes, or a remainder that makes the last block
 	// (data + 4 byte checksum) a power of two long - then a single flipped bit of
 	// a length field can land on another whole number of blocks - or anything near
-	rem := func() int {
-		switch src.Weighted([]int{4, 3, 3}) {
-		case 0:
-			return src.Range(lo, hi)
-		case 1:
-			return (4 << uint(src.Intn(9))) - 4 // 0, 4, 12, 28, ..., 1020
-		}
-		return src.Range(-70, 1100)
-	}
+	rem := func() int { return drawRem(src, lo, hi) }
 	switch class {
 	case 0:
 		n = src.Range(2, 64)
